@@ -30,7 +30,7 @@ from xmlschema.aliases import ElementType, BaseXsdType, SchemaElementType, \
     ModelParticleType, ComponentClassType, DecodeType, DecodedValueType
 from xmlschema.translation import gettext as _
 from xmlschema.utils.etree import iter_schema_location_hints, iter_schema_namespaces
-from xmlschema.utils.decoding import Empty, raw_encode_attributes, strictly_equal
+from xmlschema.utils.decoding import Empty, raw_encode_attributes, value_space_equal
 from xmlschema.utils.qnames import get_qname
 from xmlschema.arguments import XSD_VALIDATION_MODES
 from xmlschema import dataobjects
@@ -828,8 +828,8 @@ class XsdElement(XsdComponent, ParticleMixin,
                     text = self.fixed
                 elif text == self.fixed:
                     pass
-                elif not strictly_equal(xsd_type.text_decode(text, context=context),
-                                        xsd_type.text_decode(self.fixed)):
+                elif not value_space_equal(xsd_type.text_decode(text, context=context),
+                                           xsd_type.text_decode(self.fixed)):
                     reason = _("must have the fixed value %r") % self.fixed
                     context.validation_error(validation, self, reason, obj)
 
